@@ -71,9 +71,24 @@ def stub_iwls_callees():
     import liesel.goose.iwls as iwls
     import liesel.goose.iwls_utils as iu
     saved = (iwls.solve, iwls.mvn_sample, iwls.mvn_log_prob)
-    iwls.solve = lambda L, r: stubs.stub("solve", (L, r), r, real=iu.solve)
-    iwls.mvn_sample = lambda key, m, C: stubs.stub("mvn_sample", (key, m, C), m, real=iu.mvn_sample)
-    iwls.mvn_log_prob = lambda x, m, C: stubs.stub("mvn_log_prob", (x, m, C), jnp.zeros(()), real=iu.mvn_log_prob)
+
+    def flex(name, real, n, like):
+        """contract stub for the call the lemma covers (the first n parameters, everything else at its default).  A call that passes further
+        arguments is decomposed as  lemma-covered call + (real(all arguments) - real(first n)),  the difference being interpreted from the real
+        code: zero for a behaviour-preserving option, otherwise it shows up in the glue obligations"""
+        import inspect
+
+        def f(*a, **kw):
+            if len(a) == n and not kw:
+                return stubs.stub(name, a, like(a), real=real)
+            ba = inspect.signature(real).bind(*a, **kw)
+            base = tuple(list(ba.arguments.values())[:n])
+            core = stubs.stub(name, base, like(base), real=real)
+            return core + (real(*a, **kw) - real(*base))
+        return f
+    iwls.solve = flex("solve", iu.solve, 2, lambda a: a[1])
+    iwls.mvn_sample = flex("mvn_sample", iu.mvn_sample, 3, lambda a: a[1])
+    iwls.mvn_log_prob = flex("mvn_log_prob", iu.mvn_log_prob, 3, lambda a: jnp.zeros(()))
     try:
         yield
     finally:
